@@ -93,6 +93,7 @@ Definition op_cmp (p : pred) (x y : F) : bool :=
   | Some Lt, ONE | Some Gt, ONE => true
   | Some Lt, OLE | Some Eq, OLE => true
   | Some Lt, OLT => true
+  | Some Lt, UNE | Some Gt, UNE | None, UNE => true
   | _, _ => false
   end.
 Definition op_bit (o : lbit) (a b : bool) : bool :=
